@@ -4,8 +4,8 @@
    exp(+2 pi i opd / lambda) is [phase lambda opd = ke (-(opd / lambda))].  Shapes, offsets and
    coordinates range over all of Z, amplitudes over S, OPDs and wavelengths over the rationals.
    Vocabulary (Model/Plane.v): [embed_sum fs r c] = sum of the fields at plane coordinate (r, c);
-   [ec_sum] = the same with one-element fields (the 0-d plane wave of a fresh Wavefront) read as
-   infinite constants, which is how Field.__mul__ reads them; [transmission P lambda n m r c] =
+   [ec_sum] = the same with 0-d fields (the plane wave of a fresh Wavefront) read as infinite
+   constants, which is how Field.__mul__ reads them (an array with one element is one sample); [transmission P lambda n m r c] =
    amplitude * phase * (number of segment masks containing the sample) at coordinate (r, c) of an
    n x m plane whose origin is sample (n/2, m/2).
 
@@ -15,8 +15,10 @@
      amplitude, OPD and mask all 0-d (incl. the default plane)
                                    -> C07_all_scalar_plane, C07_default_plane_is_identity
      0-d mask with an array amplitude or array OPD: modelled and tied, no theorem (the mask is then not an aperture)
-   Excluded by hypothesis ([slice_big], [origin_consts]) and recorded as known finding
-   C07-one-element-array-field: phasors or fields that are arrays with exactly one element. *)
+   The statements describe the code after the fix: commits for the findings C07-one-element-array-field,
+   C07-one-layer-cube and C07-scalar-mask-ignored: one-sample segments and fields, one-layer mask cubes and
+   one-element masks need no exclusion any more.  [origin_consts] (a 0-d field times the 0-d phasor of an
+   all-scalar plane needs equal offsets) is the known finding C06-scalar-scalar-offsets. *)
 From LV Require Import Model.Plane Proofs.FieldP Proofs.PlaneP Lib.Instances.
 
 (* (a) Wavefront.field is the sum of the fields, sample by sample ... *)
@@ -61,9 +63,10 @@ Proof. exact accumulate_elsewhere. Qed.
 Print Assumptions C07_insert_leaves_other_samples.
 
 (* (c) Plane.multiply / Pupil.multiply for a plane with an array mask (monolithic or segmented), amplitude
-   and OPD each scalar or array: accepted exactly when the pixel scales are; the result is the incoming
-   field times the transmission, sample by sample; wavelength unchanged; shape = the plane's; a Pupil
-   hands over its focal length *)
+   and OPD each scalar or array, segments and fields of any size down to a single sample, cubes of any
+   number of layers: accepted exactly when the pixel scales are; the result consists of array fields and is the
+   incoming field times the transmission, sample by sample; wavelength unchanged; shape = the plane's; a
+   Pupil hands over its focal length *)
 Theorem C07_plane_multiplies_pointwise :
   forall (S : Scalar), is_ring S -> forall (P : plane S) (w : pwf S) (n m : Z) (px : option (Qc * Qc)),
   plane_ok P n m -> (forall f, In f (pw_data w) -> fwell f) ->
@@ -71,6 +74,7 @@ Theorem C07_plane_multiplies_pointwise :
   exists w', plane_multiply P w = Ok w' /\
     pw_lam w' = pw_lam w /\ pw_pix w' = px /\ pw_shape w' = Some (n, m) /\
     pw_focal w' = (match pl_focal P with Some f => f | None => focal_truthy (pw_focal w) end) /\
+    (forall f, In f (pw_data w') -> fsized f) /\
     forall r c, embed_sum (pw_data w') r c = (ec_sum (pw_data w) r c * transmission P (pw_lam w) n m r c)%K.
 Proof. exact plane_multiply_spec. Qed.
 Print Assumptions C07_plane_multiplies_pointwise.
@@ -87,23 +91,23 @@ Theorem C07_transmission_is_phasor_inside_mask_zero_outside :
 Proof. exact transmission_inside_outside. Qed.
 Print Assumptions C07_transmission_is_phasor_inside_mask_zero_outside.
 
-(* amplitude, OPD and mask all scalars (the mask derived from the amplitude or 1): every field is scaled by
-   amplitude * exp(2 pi i opd / lambda); wavelength and shape unchanged; Pupil hands over its focal length *)
+(* amplitude, OPD and mask all scalars: every field is scaled by amplitude * [mask] * exp(2 pi i opd / lambda)
+   (a zero mask blocks everything); wavelength and shape unchanged; Pupil hands over its focal length *)
 Theorem C07_all_scalar_plane :
-  forall (S : Scalar), is_ring S -> forall (P : plane S) (w : pwf S) (v : S) (q : Qc) (px : option (Qc * Qc)),
-  plane_scalar P v q -> (forall f, In f (pw_data w) -> fwell f) -> origin_consts (pw_data w) ->
+  forall (S : Scalar), is_ring S -> forall (P : plane S) (w : pwf S) (v : S) (q : Qc) (b : bool) (px : option (Qc * Qc)),
+  plane_scalar P v q b -> (forall f, In f (pw_data w) -> fwell f) -> origin_consts (pw_data w) ->
   mul_pixelscale (pl_pix P) (pw_pix w) = Ok px ->
   exists w', plane_multiply P w = Ok w' /\
     pw_lam w' = pw_lam w /\ pw_pix w' = px /\ pw_shape w' = pw_shape w /\
     pw_focal w' = (match pl_focal P with Some f => f | None => focal_truthy (pw_focal w) end) /\
-    forall r c, embed_sum (pw_data w') r c = (embed_sum (pw_data w) r c * (v * phase (pw_lam w) q))%K.
+    forall r c, embed_sum (pw_data w') r c = (embed_sum (pw_data w) r c * (v * kofb b * phase (pw_lam w) q))%K.
 Proof. exact plane_multiply_scalar. Qed.
 Print Assumptions C07_all_scalar_plane.
 
 (* a plane with default attributes (amplitude 1, opd 0, no mask) changes nothing *)
 Theorem C07_default_plane_is_identity :
   forall (S : Scalar), is_ring S -> forall (P : plane S) (w : pwf S) (px : option (Qc * Qc)),
-  kernel_laws S -> plane_scalar P k1 0%Qc -> (forall f, In f (pw_data w) -> fwell f) ->
+  kernel_laws S -> plane_scalar P k1 0%Qc true -> (forall f, In f (pw_data w) -> fwell f) ->
   origin_consts (pw_data w) -> mul_pixelscale (pl_pix P) (pw_pix w) = Ok px ->
   exists w', plane_multiply P w = Ok w' /\ pw_lam w' = pw_lam w /\ pw_shape w' = pw_shape w /\
     forall r c, embed_sum (pw_data w') r c = embed_sum (pw_data w) r c.
@@ -175,8 +179,7 @@ Example C07_nonvacuous :
   match exPlane with
   | Ok P =>
       pl_slices P = [SBox 0 2 0 2; SBox 0 3 0 4] /\
-      forallb (fun s => match s with SBox r0 r1 c0 c1 => negb ((r1 - r0) * (c1 - c0) =? 1) | SAll => true end)
-              (pl_slices P) = true /\ plane_dims (pl_mask P) = Some (3, 4) /\
+      plane_dims (pl_mask P) = Some (3, 4) /\
       match plane_multiply P (pwf_init (S := ZS) 1%Qc PixNone None []) with
       | Ok w => pw_focal w = FVal (Q2Qc 2) /\ pw_shape w = Some (3, 4) /\ length (pw_data w) = 2%nat /\
                 embed_sum (pw_data w) 1 0 = 7 /\ embed_sum (pw_data w) (-1) 1 = 0 /\
